@@ -282,3 +282,78 @@ class LineSeam:
             yield self
         finally:
             self.uninstall()
+
+
+class SimRLock:
+    """Re-entrant lock whose waiters hand the baton on instead of blocking for real."""
+
+    def __init__(self):
+        self.owner = None
+        self.depth = 0
+        self.waits = 0
+        self._real = __import__("threading").RLock()
+
+    def acquire(self, blocking=True, timeout=-1):
+        sim = sched.current_sim()
+        me = sim.me() if sim is not None else None
+        if me is None:
+            return self._real.acquire(blocking, timeout)
+        if self.owner is not None and self.owner is not me:
+            self.waits += 1
+            sim.count("seed_lock_wait")
+            sim.block_until(lambda: self.owner is None, "seed-lock")
+        self.owner = me
+        self.depth += 1
+        return True
+
+    def release(self):
+        sim = sched.current_sim()
+        me = sim.me() if sim is not None else None
+        if me is None:
+            return self._real.release()
+        self.depth -= 1
+        if self.depth <= 0:
+            self.owner, self.depth = None, 0
+
+    __enter__ = acquire
+
+    def __exit__(self, *exc):
+        self.release()
+        return False
+
+
+class LockSeam:
+    """Module-level locks of the repository replaced by simulator-aware ones (looked up by name)."""
+
+    TARGETS = (("pyxel.util.randomize", "_SEED_LOCK"),)
+
+    def __init__(self):
+        self._saved = []
+        self.locks = []
+
+    def install(self) -> None:
+        import importlib
+
+        for modname, attr in self.TARGETS:
+            try:
+                mod = importlib.import_module(modname)
+            except Exception:  # noqa: BLE001
+                continue
+            if hasattr(mod, attr):
+                lk = SimRLock()
+                self._saved.append((mod, attr, getattr(mod, attr)))
+                self.locks.append(lk)
+                setattr(mod, attr, lk)
+
+    def uninstall(self) -> None:
+        for mod, attr, orig in self._saved:
+            setattr(mod, attr, orig)
+        self._saved = []
+
+    @contextlib.contextmanager
+    def active(self):
+        self.install()
+        try:
+            yield self
+        finally:
+            self.uninstall()
